@@ -83,7 +83,7 @@ Inductive hkind :=
   | HKeyAnchor      (* key's anchor name matched (search_anchors) *)
   | HKey            (* key name matched *)
   | HValAnchor      (* value's / element's anchor name matched *)
-  | HVal            (* scalar value / element matched *)
+  | HValue            (* scalar value / element matched *)
   | HMember         (* set member matched *)
   | HMemberAnchor   (* set member's anchor name matched *)
   | HYmk            (* merge-key reference whose anchor name matched *)
@@ -352,7 +352,7 @@ Definition value_part (rec : node -> string -> loc -> list string -> outcome res
       else if is_container v then rec v tmp lc' seen
       else if o_values o then
         do m <- term_matches (key_val v);
-        Ok (if m then [mkhit tmp lc' HVal] else [], seen)
+        Ok (if m then [mkhit tmp lc' HValue] else [], seen)
       else Ok ([], seen)
   end.
 
